@@ -225,6 +225,7 @@ class Summarizer:
                 continue
             k = n.get('k')
             if k == 'call' or (k == 'opcall' and n.get('op') == '()'):
+                n['_seq'] = len(p.effects)        # position in the path's effect order; copies of the value keep it
                 p.effects.append(('call', self.R.r(n), n))
             elif k == 'un' and n.get('op') in ('++', '--', 'post++', 'post--'):
                 t = _strip(n.get('e'))
@@ -273,29 +274,50 @@ class Summarizer:
             holder, key = st, 'rhs'
         elif k == 'return' and st.get('e') is not None:
             holder, key = st, 'e'
+        elif k in ('call', 'opcall') and st.get('args'):
+            holder, key = st, 'args'
         if holder is None:
             return None
         v = holder[key]
-        chain = []
-        while isinstance(v, dict) and v.get('k') == 'cast':
-            chain.append(v)
-            v = v.get('e')
-        if isinstance(v, dict) and v.get('k') == 'cond':
-            return holder, key, v
+        # the first conditional expression anywhere in the value (not inside a lambda / call argument evaluation order
+        # matters little here: both operands are pure values in the code base)
+        target = None
+        for root in (v if isinstance(v, list) else [v]):
+            for n in walk(root):
+                if n.get('k') == 'lambda':
+                    break
+                if n.get('k') == 'cond':
+                    target = n
+                    break
+            if target is not None:
+                break
+        if target is not None:
+            return holder, key, target
         return None
 
     def stmt(self, st, p):
         cv = self._cond_value(st)
         if cv is not None:
             holder, key, c = cv
-            # `x = c ? a : b;` is `if (c) x = a; else x = b;`
+            # `x = f(c ? a : b);` is `if (c) x = f(a); else x = f(b);`
+            def replaced(tree, val):
+                if tree is c:
+                    return val
+                if isinstance(tree, list):
+                    return [replaced(x, val) for x in tree]
+                if not isinstance(tree, dict):
+                    return tree
+                if not any(x is c for x in walk(tree)):
+                    return tree
+                return {kk: (replaced(vv, val) if isinstance(vv, (dict, list)) and kk not in ('owner', 'fta', 'ta', 'elem_of') else vv) for kk, vv in tree.items()}
+
             def variant(val):
                 st2 = dict(st)
                 if holder is st:
-                    st2[key] = val
+                    st2[key] = replaced(holder[key], val)
                 else:
                     v2 = dict(holder)
-                    v2[key] = val
+                    v2[key] = replaced(holder[key], val)
                     st2['vars'] = [v2]
                 return st2
             as_if = {'k': 'if', 'l': st.get('l'), 'cond': c['c'], 'then': variant(c['a']), 'else': variant(c['b'])}
@@ -405,7 +427,7 @@ class Summarizer:
         op = st.get('op')
         rhs = self.sub(st.get('rhs'), p)
         self.expr_effects(rhs, p)
-        if isinstance(t, dict) and t.get('k') == 'ref' and t.get('dk') in ('local', 'binding'):
+        if isinstance(t, dict) and t.get('k') == 'ref' and t.get('dk') in ('local', 'binding') and not t.get('elem_of') and not t.get('isref'):
             if op == '=':
                 p.env[t['name']] = rhs
             else:
